@@ -414,7 +414,7 @@ class Intervals(Family):
     timeout = 30.0
 
     def generate(self, rng, tier):
-        nd = 110 if tier == "quick" else 900
+        nd = 150 if tier == "quick" else 900
         per = 10 if tier == "quick" else 16
         # exhaustive interval lists on a few small descriptions
         for k in range(3 if tier == "quick" else 12):
@@ -434,6 +434,18 @@ class Intervals(Family):
             for ivs in valid_interval_lists(2 * d["L"], rng, per // 2):
                 yield {"op": rng.choice(["keep_intervals", "delete_intervals"]),
                        "api": rng.choice(["tc", "ts"]), "simplify": True, "intervals": ivs, "desc": d}
+        # simplify=True on inputs simplify refuses (edge metadata / migrations): documented error
+        for _ in range(nd // 10):
+            d = make_desc(rng, migrations=rng.random() < 0.5, edge_md=True, unique_node_md=True)
+            for ivs in valid_interval_lists(2 * d["L"], rng, 2):
+                yield {"op": rng.choice(["keep_intervals", "delete_intervals"]),
+                       "api": rng.choice(["tc", "ts"]), "simplify": True, "intervals": ivs, "desc": d}
+        # wrongly shaped interval arguments
+        for _ in range(nd // 10):
+            d = make_desc(rng)
+            yield {"op": rng.choice(["keep_intervals", "delete_intervals"]), "api": "tc", "simplify": False,
+                   "intervals": [], "raw_intervals": rng.choice([[0, 1], [[0, 1, 2]], [[0], [1]], [[[0, 1]]]]),
+                   "desc": d, "malformed": True}
         # malformed interval lists
         for _ in range(nd // 2):
             d = make_desc(rng)
@@ -452,6 +464,8 @@ class Intervals(Family):
         tc = gen_ts.build_tables(d)
         obs = {"in": dump(tc, s)}
         ivs = [[real(a, s), real(b, s)] for a, b in case["intervals"]]
+        if "raw_intervals" in case:
+            ivs = case["raw_intervals"]
         try:
             if case["api"] == "ts":
                 ts = tc.tree_sequence()
@@ -483,10 +497,20 @@ class Intervals(Family):
         op = case["op"]
         P = inp["L"]
         check_input(inp, obs, fails)
-        ok = self.well_formed(case["intervals"], P)
+        ok = self.well_formed(case["intervals"], P) and "raw_intervals" not in case
         if not ok:
             if obs.get("error") != "ValueError":
                 fails.append((op + ":malformed-intervals-accepted", "%r -> %r" % (case["intervals"], obs.get("error"))))
+            return fails
+        ins = (lambda x: in_ivs(case["intervals"], x)) if op == "keep_intervals" else \
+              (lambda x: not in_ivs(case["intervals"], x))
+        survives = lambda row: any(ins(x) for x in range(max(row[0], 0), min(row[1], P)))     # noqa: E731
+        refused = case["simplify"] and (any(survives(g) for g in inp["migrations"])
+                                        or any(e[4] and survives(e) for e in inp["edges"]))
+        if refused:
+            # documented: simplify must be False with migrations; simplify cannot process edge metadata
+            if obs.get("error") != "LibraryError":
+                fails.append((op + ":simplify-unsupported-input-accepted", "%r" % obs.get("error")))
             return fails
         if "error" in obs:
             fails.append((op + ":unexpected-error", "%s %s" % (obs["error"], obs.get("msg"))))
@@ -591,7 +615,7 @@ class Intervals(Family):
         return dedup(fails)
 
     def coq_check(self, case, obs):
-        if case["simplify"]:
+        if case["simplify"] or "raw_intervals" in case:
             return None
         exp = q_expect(obs)
         if exp is None:
@@ -648,7 +672,7 @@ class Trim(Family):
     workers = 8
 
     def generate(self, rng, tier):
-        nd = 400 if tier == "quick" else 5000
+        nd = 500 if tier == "quick" else 5000
         for k in range(nd):
             d = make_desc(rng, migrations=(rng.random() < 0.5))
             L = d["L"]
@@ -790,7 +814,7 @@ class DelSites(Family):
     workers = 8
 
     def generate(self, rng, tier):
-        nd = 80 if tier == "quick" else 1500
+        nd = 100 if tier == "quick" else 1000
         for _ in range(nd):
             d = make_desc(rng, max_sites=5)
             ns = len(d["sites"])
@@ -903,7 +927,7 @@ class TimeCut(Family):
     workers = 8
 
     def generate(self, rng, tier):
-        nd = 80 if tier == "quick" else 2000
+        nd = 110 if tier == "quick" else 1200
         for k in range(nd):
             mig = rng.random() < 0.25
             d = make_desc(rng, migrations=mig)
